@@ -80,7 +80,8 @@ ParseN(b, off, seen, n) ==
   IF n = 0 THEN [more |-> TRUE, off |-> off, seen |-> seen]
   ELSE IF off >= Len(b) THEN Fin([ok |-> TRUE])
   ELSE LET rem == Len(b) - off IN
-    IF rem < 4 THEN Fin(Trunc(8 + off, rem + 4 + off, FALSE))
+    \* (until D9 was repaired the code reported this case with both sizes 4 too large: Trunc(8 + off, rem + 4 + off))
+    IF rem < 4 THEN Fin(Trunc(4 + off, Len(b), FALSE))
     ELSE LET ty == U16(b, off + 1)  len == U16(b, off + 3)  padded == 4 + Pad4(len) IN
       IF len > rem - 4 THEN Fin(Trunc(len + 4 + off, Len(b), FALSE))
       ELSE IF FP \in seen THEN Fin([ok |-> FALSE, err |-> "AttributeAfterFingerprint", type |-> ty])
